@@ -934,7 +934,7 @@ def system_part(pid, tier, seed):
     return {"lines": lines, "violations": violations, "known": known, "coverage": cov}
 
 
-def hook_part(seed, tier="quick", model=False):
+def hook_part(seed, tier="quick", model=False, pid="C07"):
     """C07 on subclasses of Converter that override the documented `standardize_identifier` hook (the operational specification
     models the exact class only): the answer-to-answer laws of C07 are evaluated on logged answers by spec/TraceHook.tla."""
     import hashlib
@@ -1002,22 +1002,11 @@ def hook_part(seed, tier="quick", model=False):
                 canon = [r.prefix for r in c.records]
                 for x in dict.fromkeys(xs):
                     a = {}
-                    for key, f in (("is_uri", lambda: c.is_uri(x)), ("is_curie", lambda: c.is_curie(x)), ("compress", lambda: c.compress(x)),
-                                   ("compress@s", lambda: c.compress(x, strict=True)), ("compress_strict", lambda: c.compress_strict(x)),
-                                   ("parse_uri", lambda: c.parse_uri(x, return_none=True)), ("expand", lambda: c.expand(x)),
-                                   ("expand@s", lambda: c.expand(x, strict=True)), ("expand@p", lambda: c.expand(x, passthrough=True)),
-                                   ("expand_strict", lambda: c.expand_strict(x)),
-                                   ("parse_curie", lambda: c.parse_curie(x)), ("parse_curie@s", lambda: c.parse_curie(x, strict=True)),
-                                   ("parse", lambda: c.parse(x, strict=False)), ("parse@s", lambda: c.parse(x, strict=True)),
-                                   ("standardize_curie", lambda: c.standardize_curie(x)), ("standardize_curie@s", lambda: c.standardize_curie(x, strict=True)),
-                                   ("standardize_curie@p", lambda: c.standardize_curie(x, passthrough=True)),
-                                   ("standardize_uri", lambda: c.standardize_uri(x)),
-                                   ("expand_all", lambda: c.expand_all(x)), ("expand_all@s", lambda: c.expand_all(x, strict=True)),
-                                   ("compress_or_standardize", lambda: c.compress_or_standardize(x)),
-                                   ("compress_or_standardize@p", lambda: c.compress_or_standardize(x, passthrough=True)),
-                                   ("expand_or_standardize", lambda: c.expand_or_standardize(x)),
-                                   ("expand_or_standardize@s", lambda: c.expand_or_standardize(x, strict=True))):
-                        a[key] = impl.call_out(I, lambda *_: f())
+                    # every method in every mode (the whole strict x passthrough matrix; parse_uri also in the legacy return_none=False mode)
+                    for m, f in impl.STR_CALLS.items():
+                        for suf in impl.keys_for(m, True, True):
+                            sm, pm, rn = impl.SUFFIX_MODES[suf]
+                            a[m + suf] = impl.call_out(I, f, c, x, sm, pm, rn)
                     # the graph of the hook, observed by asking the subclass's method directly: every canonical prefix x every
                     # suffix of x after an occurrence of the delimiter
                     h, pos = [], x.find(delim)
@@ -1032,16 +1021,19 @@ def hook_part(seed, tier="quick", model=False):
     fails, st = tlc.validate_calls({"strs": I.table(), "fold": I.fold(), "convs": convs, "groups": groups}, spec="TraceHook.tla", cfg="TraceHook.cfg", timeout=600)
     lines, violations = [], 0
     for g, k, clause in fails:
+        mine = (clause[0].startswith("mon.C08.") or (clause[0].startswith("ans.hook.") and "@" in clause[0])) == (pid == "C08")
+        if not mine:
+            continue
         violations += 1
         if violations <= 5:
             m = metas[(g - 1) * 100 + (k - 1)]
             d = os.path.join(tlc.VERIF, "out", "replays")
             os.makedirs(d, exist_ok=True)
-            body = {"family": "hook", "property": "C07", "clause": list(clause), "case": {"hook": m["hook"], "delimiter": m["delimiter"], "x": m["x"]}}
-            path = os.path.join(d, "C07-" + hashlib.sha1(json.dumps(body, sort_keys=True).encode()).hexdigest()[:12] + ".json")
+            body = {"family": "hook", "property": pid, "clause": list(clause), "case": {"hook": m["hook"], "delimiter": m["delimiter"], "x": m["x"]}}
+            path = os.path.join(d, pid + "-" + hashlib.sha1(json.dumps(body, sort_keys=True).encode()).hexdigest()[:12] + ".json")
             with open(path, "w") as f:
                 json.dump(body, f, indent=1, ensure_ascii=False)
-            lines.append(f"VIOLATION property=C07 replay={path}   # clause {'/'.join(clause)} on a Converter subclass overriding standardize_identifier ({m['hook']}), input {m['x']!r}")
+            lines.append(f"VIOLATION property={pid} replay={path}   # clause {'/'.join(clause)} on a Converter subclass overriding standardize_identifier ({m['hook']}), input {m['x']!r}")
     mc = hook_model(tier) if model else None
     return {"lines": lines, "violations": violations,
             "coverage": {"subclasses": ["Digits (rejects)", "Banana (rewrites)", "Upper (both)", "GoOnly (depends on the canonical prefix)",
@@ -1067,7 +1059,7 @@ def hook_model(tier):
     tiny = dict(HOOK_SIZES["quick"], FoldMap="<-Fold")
     wit = ["Never_Rejected", "Never_Rewritten", "Never_UriAndCurie"]
     with ThreadPoolExecutor(4) as ex:
-        main = ex.submit(co.run_model, "mc/MC_Hook.tla", "MCSpec", consts, ["Inv_C07H", "Inv_Base", "Inv_SynonymKey"], 3000 if tier == "thorough" else 900, dump=False)
+        main = ex.submit(co.run_model, "mc/MC_Hook.tla", "MCSpec", consts, ["Inv_C07H", "Inv_C08H", "Inv_Base", "Inv_SynonymKey"], 3000 if tier == "thorough" else 900, dump=False)
         ws = [ex.submit(co.run_model, "mc/MC_Hook.tla", "MCSpec", tiny, [w], 600, dump=False) for w in wit]
         st, _, _ = main.result()
         wres = [f.result()[0] for f in ws]
